@@ -175,13 +175,25 @@ Theorem C14_locked_nonvacuous :
 Proof. exact locked_example. Qed.
 Print Assumptions C14_locked_nonvacuous.
 
-(* once: whatever happens afterwards, no second migration involves either address *)
+(* once: whatever happens afterwards — migrations, blocks, governance — no second migration involves either
+   address, as long as the chain is not restarted from an exported genesis *)
 Theorem C14_once : forall (sigT : Type) (recover : Z -> Z -> sigT -> option Z) s from to sg s',
   migrate_tx sigT recover s from to sg = Ok s' ->
-  forall ops f t sg2, f = from \/ f = to \/ t = from \/ t = to ->
+  forall ops f t sg2, Forall (no_import sigT) ops -> f = from \/ f = to \/ t = from \/ t = to ->
   forall s2, migrate_tx sigT recover (run sigT recover s' ops) f t sg2 <> Ok s2.
 Proof. exact once. Qed.
 Print Assumptions C14_once.
+
+(* ... and it is FALSE across export + InitChain (finding C14-3: AppModule.InitGenesis drops the exported records):
+   after the restart the used target is accepted again *)
+Theorem C14_once_refuted_by_export_import :
+  let s0 := run unit sig_any ex_init [OMigrate unit 3 7 (Some tt)] in
+  let s := run unit sig_any ex_init [OMigrate unit 3 7 (Some tt); OExportImport unit] in
+  wf s /\ has_record s0 7 = true /\ has_record s0 3 = true /\ has_record s 7 = false /\ has_record s 3 = false /\
+  (exists s', migrate_tx unit sig_any s 2 7 (Some tt) = Ok s' /\ bal_of s' 7 0 = 10000) /\
+  (exists s', migrate_tx unit sig_any s 3 6 (Some tt) = Ok s').
+Proof. exact once_lost_on_import. Qed.
+Print Assumptions C14_once_refuted_by_export_import.
 
 (* governance: refused while the source or the target is proposer, depositor or voter of a proposal that is
    still open (status deposit or voting period), on every state with the gov store shape govwfb *)
